@@ -296,7 +296,7 @@ def exhaustive_histories(maxlen):
 
 def units(tier, seed):
     us = []
-    nrand, per = (900, 30) if tier == "quick" else (96000, 200)
+    nrand, per = (780, 30) if tier == "quick" else (96000, 200)
     for i in range(nrand // per):
         us.append({"gen": "random", "seed": seed * 100003 + i, "n": per})
     th = template_histories(tier, seed)
@@ -311,7 +311,7 @@ def units(tier, seed):
         us.append({"gen": "exhaustive", "maxlen": maxlen, "lo": i, "hi": min(total, i + chunk)})
     if tier == "quick":
         n2, n3 = total, sum(1 for _ in exhaustive_histories(3))
-        idx = sorted(random.Random(seed).sample(range(n2, n3), 1600))
+        idx = sorted(random.Random(seed).sample(range(n2, n3), 1200))
         for i in range(0, len(idx), 50):
             us.append({"gen": "exhaustive-sample", "maxlen": 3, "idx": idx[i:i + 50]})
     random.Random(seed).shuffle(us)
